@@ -9,5 +9,5 @@ def rd(x):
 for pid in sys.argv[1:]:
     e = json.load(open(f'/verif/evidence/{pid}.json'))
     obs = e['coverage']['observed']
-    fl = {k: rd(v) for k, v in obs.items() if not k.startswith('max:') and rd(v) > 0}
+    fl = {k: rd(v) for k, v in obs.items() if not k.startswith('max:') and rd(v) >= (10 if pid == 'C06' else 1000) and 'sibling' not in k}
     print(pid, e['tier'], json.dumps(fl))
